@@ -115,6 +115,12 @@ func (jenny *Builder) generateBuilder(context languages.Context, builder ast.Bui
 				resolved := context.ResolveRefs(destinationType)
 
 				if !destinationType.IsRef() || !resolved.IsEnum() {
+					// the value is assigned to a variable whose address is taken: an untyped
+					// numeric literal would make it an `int` or a `float64`, whatever the field is.
+					if resolved.IsScalar() && resolved.AsScalar().IsNumeric() {
+						return fmt.Sprintf("%s(%s)", resolved.AsScalar().ScalarKind, formatScalar(value))
+					}
+
 					return formatScalar(value)
 				}
 
